@@ -130,6 +130,11 @@ def write_ndjson(path, rows):
             f.write("\n")
 
 
+def norm_loc(loc):
+    """panic location relative to the repository root wherever the tree under test lives"""
+    return re.sub(r"^.*?/(src/|tests/|build/)", r"\1", str(loc))
+
+
 def sha(x):
     if isinstance(x, str):
         x = x.encode()
